@@ -771,7 +771,13 @@ func c10Tags(c *Ctx) {
 			return false
 		}
 		nAuto, nEmpty := 0, 0
-		EachInstr(shoot, func(in ssa.Instruction) {
+		// Shoot and the helpers of the package it calls (tagSample, ...)
+		eachInstr := func(f func(ssa.Instruction)) {
+			for _, g := range FindFuncs(shoot, 2, func(*ssa.Function) bool { return true }) {
+				EachInstr(g, f)
+			}
+		}
+		eachInstr(func(in ssa.Instruction) {
 			if !IsCall(in, sAddTag) {
 				return
 			}
